@@ -398,6 +398,36 @@ var nilHosts = []nilHost{
 	}},
 }
 
+// one host per item-valued property of every struct kind, holding the nil-like in that property ONLY (a comparison that walks
+// the properties in order reaches it only when everything before it is equal)
+func init() {
+	for _, k := range vmodel.Kinds {
+		k := k
+		for _, f := range k.Fields() {
+			f := f
+			if f.Name == "ID" || f.Name == "Type" || (f.Type.Kind() != reflect.Interface && f.Type != vmodel.IcT) {
+				continue
+			}
+			// fields that every kind shares with Object are driven on Object (and on Activity, whose comparison is separate)
+			if _, inObject := vmodel.Kinds[0].FieldByTerm(f.Term); inObject && k.Name != "Object" && k.Name != "Activity" {
+				continue
+			}
+			nilHosts = append(nilHosts, nilHost{fmt.Sprintf("%s.%s only", k.Name, f.Term), func(it vocab.Item) vocab.Item {
+				p := reflect.ValueOf(k.New())
+				p.Elem().FieldByName("ID").Set(reflect.ValueOf(vocab.IRI("https://example.com/h")))
+				p.Elem().FieldByName("Type").Set(reflect.ValueOf(vocab.ActivityVocabularyType(k.SpecificType())))
+				fv := p.Elem().Field(f.Index)
+				if f.Type == vmodel.IcT {
+					fv.Set(reflect.ValueOf(vocab.ItemCollection{it}))
+				} else if it != nil {
+					fv.Set(reflect.ValueOf(it))
+				}
+				return p.Interface().(vocab.Item)
+			}})
+		}
+	}
+}
+
 // long lists with the nil-like member at the head, in the middle and at the end: sizes past the usual thresholds (16, 32, 64, 256)
 func init() {
 	for _, n := range []int{17, 33, 70, 300} {
@@ -685,6 +715,15 @@ func init() {
 					// signature: entry = operation on host position (the Guard names it)
 					c.Guard(op.Name+" on "+host.Name, func() { op.Run(hv) })
 					c.Eval(1)
+					if op.Name == "ItemsEqual(v,copy)" {
+						// and against the same value holding a real item where this one holds the nil-like, in both orders
+						var filled vocab.Item
+						if !c.Guard("build "+host.Name, func() { filled = host.Build(vocab.IRI("https://example.com/real/member")) }) {
+							c.Guard("ItemsEqual(v,filled) on "+host.Name, func() { _ = vocab.ItemsEqual(hv, filled) })
+							c.Guard("ItemsEqual(filled,v) on "+host.Name, func() { _ = vocab.ItemsEqual(filled, hv) })
+							c.Count("nil-vs-filled-comparisons", 2)
+						}
+					}
 					// "nothing" means nothing: both encoders write the host exactly as they write it with the nil-like members taken
 					// out (a nil-like in a property = the property unset, in a list = one member fewer)
 					if op.Name == "MarshalJSON" || op.Name == "GobEncode" {
